@@ -139,9 +139,12 @@ def run_symx(job, setup, body, monolithic_upto=150, root_len=0, wit=None):
     if ok and len(paths) <= monolithic_upto and not ctx.any_fresh:   # path-local fresh variables are not part of the declared domain
         r = certificate_monolithic(ctx, paths)
         cert['monolithic'] = r
-        cert['kind'] = 'decision-tree audit + unsat(domain and not OR(path conditions))'
-        if r != 'unsat':
-            cert['ok'] = False
+        if r == 'unsat':
+            cert['kind'] = 'decision-tree audit + unsat(domain and not OR(path conditions))'
+        elif r == 'sat':
+            cert['ok'] = False          # a point of the declared domain lies on no explored path
+        else:
+            cert['kind'] = 'decision-tree audit (the additional monolithic query was not answered within its time limit)'
     res['cert'] = cert
     return res
 
